@@ -53,15 +53,26 @@ Definition make_rtc (origin : Z) (rt : option (list Z)) : list Z :=
 Definition rtc_origin (p : list Z) : Z := if (length p <? 5)%nat then 0 else rd32 (skipn 1 p).
 Definition rtc_rt (p : list Z) : option (list Z) := if (length p <? 13)%nat then None else Some (firstn 8 (skipn 5 p)).
 
+(* octets an RTC NLRI of prefix length `len` bits takes on the wire: the length octet + ceil(len / 8) (RFC 4684 4) *)
+Definition rtc_size (len : Z) : Z := 1 + (len + 7) / 8.
+
+(* RTCBase.unpack_nlri: length 0 is the wildcard; 32..96 bits take rtc_size octets; the prefix is stored zero
+   padded to the 13-octet form [length][origin 4][route target 8] with the two flag bits of the route target
+   type octet reset.  -> None = Notify(3,10) | Some (stored bytes, rest) *)
 Definition unpack_rtc (data : list Z) : option (list Z * list Z) :=
   match data with
   | [] => None
-  | len :: _ =>
+  | len :: d =>
     if len =? 0 then Some ([len], skipn 1 data) else
     if (len <? 32) || (96 <? len) then None else
-    if (length data <? 13)%nat then None else
-    Some (firstn 5 data ++ reset_flags (nth 5 data 0) :: firstn 7 (skipn 6 data), skipn 13 data)
+    let size := rtc_size len in
+    if zlen data <? size then None else
+    let value := firstn (Z.to_nat (size - 1)) d ++ repeat 0 (Z.to_nat (13 - size)) in
+    Some (len :: firstn 4 value ++ reset_flags (nth 4 value 0) :: firstn 7 (skipn 5 value), skipn (Z.to_nat size) data)
   end.
+
+(* RTCBase.pack_nlri: only the octets the prefix covers go on the wire *)
+Definition pack_rtc (p : list Z) : list Z := firstn (Z.to_nat (rtc_size (nth 0 p 0))) p.
 
 Definition rtc_index (p : list Z) : list Z := fam_index 1 132 ++ p.
 
